@@ -190,6 +190,7 @@ def c05_rules():
         lambda prog, tier: verdict.run(prog),
         lambda prog, tier: djsym.run_nbsym(prog),
         lambda prog, tier: djsym.run_keepcache(prog),
+        lambda prog, tier: inval.run_skipgate(prog),
         lambda prog, tier: vtypezero.run(prog),
     ]
 
@@ -300,7 +301,7 @@ PROPS = {
                   lambda prog, tier: _only(inval.run_fok(prog), "basis installed"),
                   lambda prog, tier: idxclass.run(prog, scope_units=("lib_mpq.c", "qsopt_mpq.c")),
                   lambda prog, tier: fullscan.run(prog, ["mpq_ILLlib_writebasis"], ("lib_mpq.c",), floor=2),
-                  lambda prog, tier: trunc.run(prog)],
+                  lambda prog, tier: trunc.run(prog), lambda prog, tier: inval.run_skipgate(prog)],
         "technique": "who-may-write ownership rule over interprocedural write-effect summaries; table agreement of type-resolved string "
                      "literals (writer format literals vs reader strcmp operands / section tables); must-follow dataflow for factorok",
         "explanation": "Decides three structural clauses of C14: (R-OWN) no public function outside the frozen owner table may write or "
@@ -626,7 +627,8 @@ _ADD = {
             "explanation": " (R-COUPD(sense)) every path that stores a new row sense also writes the logical column's lower bound, upper bound and "
                            "coefficient before the loop iteration / function completes; (R-SENSEMAP) ILLlib_addrow, ILLlp_add_logicals and ILLlib_chgsense "
                            "give the logical column the same coefficient sign for every sense letter (value enumeration through the switch / if forms); (R-KEEPCACHE) the test of the cached dual "
-                           "value that lets ILLlib_delrows keep the cached solution rejects both signs."},
+                           "value that lets ILLlib_delrows keep the cached solution rejects both signs; (R-SKIPGATE) a solve entry point answers from the "
+                           "cache only under tests of p->basis, p->cache and p->factorok."},
     "C08": {"technique": "; all-paths constant propagation through the '/' case of the exact literal scanner; flag-state dataflow for stores into the "
                          "raw LP's bounds; machine-word sink census; exit-condition analysis of the emission loops",
             "explanation": " (R-RESCAN) the '/' case of the exact literal scanner restores every scanner state variable; (R-EXPLICITBND) the raw LP's "
@@ -660,7 +662,8 @@ _ADD = {
                           "defects are reported by it)."},
     "C14": {"technique": "; exit-condition analysis of the record-emitting loops of the basis writer",
             "explanation": " (R-FULLSCAN) the loops that emit XU/XL and UL records are left only on counter tests or failure exits; (R-SECTIONS) every "
-                           "section emitter dominates ENDATA."},
+                           "section emitter dominates ENDATA; (R-SKIPGATE) after a basis has been loaded (factorok reset, R-FOK) no solve entry "
+                           "point answers from the cache of the previous basis."},
     "C17": {"technique": "; capacity-governed allocation agreement (governed arrays discovered from their allocation sites); read-but-never-written "
                          "field census; printf-format census; floating-point-derived subscript taint; four-array norm typestate at a basis load"},
     "C18": {"technique": "; append-slot typestate with error-code / flag correlation; deep-release check of owning records"},
